@@ -13,7 +13,9 @@ import json, os, re
 import vcheck as V
 
 WINDOWS = ["zombie", "sdlag", "commit", "late", "sdspawn", "dup", "stale"]   # most significant bit first
-WINDOW_FINDING = {"commit": "F20/F21", "late": "F26", "sdspawn": "F22", "dup": "F25", "stale": "F32", "sdlag": "F37", "zombie": "F38"}
+# per-name attribution (Check.mon_run_wn) has one more bit in front: a stop execution on an instance that had ended
+WINDOWS_NARROW = ["stalestop"] + WINDOWS
+WINDOW_FINDING = {"stalestop": "F54", "commit": "F20/F21", "late": "F26", "sdspawn": "F22", "dup": "F25", "stale": "F32", "sdlag": "F37", "zombie": "F38"}
 
 
 # C05 (an unsatisfied dependency => never launched) is the negative side of C01: the C01 monitor decides on its
@@ -22,8 +24,8 @@ WINDOW_FINDING = {"commit": "F20/F21", "late": "F26", "sdspawn": "F22", "dup": "
 EXTRA_MONITORS = {"C05": ["C01"], "C03": ["C03x"]}
 
 
-def win_names(code):
-    return [WINDOWS[k] for k in range(len(WINDOWS)) if code & (1 << (len(WINDOWS) - 1 - k))]
+def win_names(code, names=WINDOWS):
+    return [names[k] for k in range(len(names)) if code & (1 << (len(names) - 1 - k))]
 
 
 def run(ctx, pid, kinds, n_quick, n_thorough, polite=60, extra_assumptions=()):
@@ -92,7 +94,7 @@ def run(ctx, pid, kinds, n_quick, n_thorough, polite=60, extra_assumptions=()):
     unexplained, explained = [], {}
     for i in bad:
         # only windows the history went through BEFORE the violating event can explain the violation
-        wn = win_names(badw[i]) if i in badw else (win_names(wcodes[i]) if i < len(wcodes) else [])
+        wn = win_names(badw[i], WINDOWS_NARROW) if i in badw else (win_names(wcodes[i]) if i < len(wcodes) else [])
         hit = [w for w in wn if ctx.is_known("window:" + w)]
         if hit:
             explained.setdefault(hit[0], []).append(i)
